@@ -84,11 +84,16 @@ def strip_comments(src: str) -> str:
     return "".join(out)
 
 
-def grep_forbidden(modules: Iterable[str] | None = None) -> list[str]:
-    """Scan the Lean tree (or given modules' files) for sorry/admit/axiom/native_decide… outside comments."""
+def grep_forbidden(prop: str | None = None) -> list[str]:
+    """Scan the Lean sources of this property (files named Cxx*, plus Base) for sorry/admit/axiom/
+    native_decide… outside comments. Dependencies on other properties' files are covered by the
+    axiom audit (`sorryAx` and own axioms show up in `#print axioms`)."""
     hits = []
     files = sorted((LEAN / "Kopf").rglob("*.lean")) + [LEAN / "Driver.lean"]
     for f in files:
+        m = re.search(r"C\d\d", f.name)
+        if "Audit" in f.parts or (prop and m and m.group(0) != prop):
+            continue
         txt = strip_comments(f.read_text())
         for m in FORBIDDEN.finditer(txt):
             line = txt.count("\n", 0, m.start()) + 1
